@@ -19,8 +19,9 @@ Skip(tag) == PrintT("VP|skip|" \o ToString(E.case) \o "|" \o tag)
 JudgeConst(x, o) ==
     IF x.t \in {"err", "failed", "unknown"} THEN (~o.ok \/ Fail("error-expected"))
     ELSE IF ~o.ok THEN Fail("unexpected-error")
-    ELSE IF o.t # x.t THEN Fail("type")
+    ELSE IF o.t # (IF x.t = "wint" THEN "int" ELSE x.t) THEN Fail("type")
     ELSE CASE x.t = "int" -> ((~o.wide /\ o.v = x.v) \/ Fail("value")) /\ (o.s = x.s \/ Fail("size"))
+           [] x.t = "wint" -> Skip("wide")
            [] x.t = "bool" -> (o.v = x.v \/ Fail("value"))
            [] x.t = "str" -> ((o.cps = x.cps /\ o.enc = x.enc) \/ Fail("string"))
            [] OTHER -> TRUE
